@@ -548,6 +548,17 @@ example : ∃ a, Reach 8 0 8 a [] := ⟨_, Reach.init (a := (CBA.init 8 0 8).get
 example : ((NIA.init 3 0x03FFFFFE).map fun a => (a.allocs 4).2)
     = some [some 268435454, some 268435455, some 268435454, some 268435455] := by decide
 
+/-- OBSERVATION (noted, not claimed by C16; see design.d/C16.md): `Server._make_default_groups`
+    gives client `c` the default group id `num_ids·c + 1` with `num_ids = (2^31 − 1) / 64 = 2^25 − 1`,
+    while the node id window of a client is `2^26` wide.  The default group of client 1
+    (`33554432`) therefore lies inside the window of client 0, which hands out exactly that id as
+    its 33 553 433rd temporary id. -/
+example : ∀ a, NIA.init 0 1000 = some a →
+    (a.allocs 33553433).2[33553432]? = some (some ((2 ^ 25 - 1) * 1 + 1)) := by
+  intro a h
+  have := node_id_closed_form (user := 0) (i0 := 1000) (a := a) h (by decide) 33553433 33553432 (by decide)
+  rw [this]; decide
+
 /-- default options of sc3 (1024 audio buses, 2 in + 2 out, 16384 control buses, 1024 buffers),
     4 logins, client 2 -/
 example : busAllocArgs ⟨16384, 1024, 1024, 2, 2, 4, 0, 0, 0, 2, 1000⟩ = ((4096, 0, 8192), (255, 0, 514)) ∧
